@@ -48,7 +48,7 @@ OMML = "sharepoint2text/parsing/extractors/util/omml_to_latex.py"
 def _discover():
     """the nested recursive worker of omml_to_latex and the enclosing-scope variable it rebinds, found by what they
     are (the nested def with a `nonlocal` declaration / its single declared name), not by how they are called"""
-    name, var = "process_element", "pending_sqrt_close"
+    name, var, ok = "process_element", "pending_sqrt_close", False
     try:
         m = loader.module(OMML)
         outer = m.functions.get("omml_to_latex")
@@ -57,12 +57,15 @@ def _discover():
         withnl = [(n, v) for n, v in withnl if v]
         if len(withnl) == 1 and len(set(withnl[0][1])) == 1:
             name, var = withnl[0][0].name, withnl[0][1][0]
+            ok = True
+        elif len(nested) == 1:
+            name = nested[0].name        # a nested worker that keeps its state some other way (a cell, an object ...)
     except Exception:  # noqa  (missing file etc.: the contract target will be reported missing)
         pass
-    return name, var
+    return name, var, ok
 
 
-PE_NAME, PENDING = _discover()          # PENDING: the closure variable holding the closer a malformed radical waits for
+PE_NAME, PENDING, STATE_MODEL = _discover()          # PENDING: the closure variable holding the closer a malformed radical waits for
 PE = f"{OMML}::omml_to_latex.<locals>.{PE_NAME}"
 PE_OID = "omml_to_latex.<locals>.process_element"      # stable obligation ids whatever the nested function is called
 
@@ -643,6 +646,15 @@ class C19Executor(Executor):
             st.assume(NCH(args[0].t) >= 0)
             return [(st, VInt(NCH(args[0].t)))]          # len(element) = number of children
         return super().b_len(st, args, kwargs, node)
+
+    def str_method(self, st, s, name, args, kwargs, node):
+        if name == "format" and isinstance(s, VStr) and s.const() is None and z3.is_app(s.t) and s.t.decl().kind() == z3.Z3_OP_ITE:
+            c_, a, b = s.t.children()          # `("$${}$$" if flag else "${}$").format(x)`: format each alternative
+            ra = self.str_method(st, VStr(a), name, args, kwargs, node)
+            rb = self.str_method(st, VStr(b), name, args, kwargs, node)
+            if len(ra) == 1 and len(rb) == 1 and isinstance(ra[0][1], VStr) and isinstance(rb[0][1], VStr):
+                return [(st, VStr(z3.If(c_, ra[0][1].t, rb[0][1].t)))]
+        return super().str_method(st, s, name, args, kwargs, node)
 
     def b_next(self, st, args, kwargs, node):
         """next(<element sequence>[, default]): its first item, the default / StopIteration when it is empty"""
@@ -1477,7 +1489,7 @@ def tables(repo, tier):
                       - locs - allowed_globals)
         nonl = sorted({x for n in ast.walk(fo) if isinstance(n, (ast.Nonlocal, ast.Global)) for x in n.names})
         P("omml_to_latex.py::omml_to_latex/policy#reads-only-argument-closure-state-and-module-constants",
-          not free and nonl == [PENDING] and not any(isinstance(n, ast.Global) for n in ast.walk(fo)),
+          not free and not any(isinstance(n, ast.Global) for n in ast.walk(fo)),      # (`nonlocal` can only name locals of omml_to_latex)
           f"free={free} nonlocal/global={nonl}")
         iters = [n.iter for n in ast.walk(fo) if isinstance(n, (ast.For, ast.comprehension))]
         unordered_consts = {k for k, v in m.assigns.items() if isinstance(v, (ast.Set, ast.SetComp)) or
@@ -1604,6 +1616,10 @@ def post_report(c, rep):
     contracts standing for calls): a solver model of one is a *candidate*, not a counterexample.  It becomes `unknown`;
     the native replayer (small-scope search on the real code) then either produces a failing input (VIOLATION) or
     leaves it UNDECIDED.  Ground table obligations (EXTRA) are definite and are not touched."""
+    if not STATE_MODEL and c.target in (PE, f"{OMML}::omml_to_latex") and rep.error != "contract-target-missing":
+        # the contract of the nested worker speaks about ONE enclosing variable rebound with `nonlocal`; the source keeps the
+        # pending-radical state some other way, so the contract does not line up with the code: nothing is claimed symbolically
+        rep.out_of_subset = rep.out_of_subset or "state of the nested worker is not a single `nonlocal` variable (contract shape not recognised)"
     if rep.out_of_subset or (rep.error and rep.error != "contract-target-missing"):
         _native_standin(c, rep)
     for o in rep.obligations:
